@@ -1,0 +1,17 @@
+// Copyright 2024 The Mellium Contributors.
+// Use of this source code is governed by the BSD 2-clause
+// license that can be found in the LICENSE file.
+
+//go:build verif
+
+package ibb
+
+// VerifHook is a yield point hook used by external verification harnesses.
+// It only exists when built with the "verif" build tag.
+var VerifHook func(point, id string)
+
+func verifYield(point, id string) {
+	if h := VerifHook; h != nil {
+		h(point, id)
+	}
+}
